@@ -182,6 +182,12 @@ def check_case(item):
         n += 1
         if got != exp:
             bad.append(("lcd-list", "LCD list %r, loop-carried dependencies %r" % (got, exp)))
+        # rows marked in the CP column = the critical path of the independent analysis
+        marked_cp = [row["line_number"] for row in r.rows if row["cp"] is not None]
+        n += 1
+        if marked_cp != _CP.get("lines"):
+            bad.append(("cp-column", "CP column marks lines %r, the critical path is %r"
+                        % (marked_cp, _CP.get("lines"))))
         mx = max([lat for _, lat in deps], default=0.0)
         marked_lines = sorted(row["line_number"] for row in r.rows if row["lcd"] is not None)
         n += 1
@@ -240,7 +246,48 @@ def _lcds(path, isa, arch, fixed):
     out = []
     for v in g.get_loopcarried_dependencies().values():
         out.append(([i.line_number for i, _ in v["dependencies"]], float(v["latency"])))
+    _CP["lines"] = [x.line_number for x in g.get_critical_path()]
     return out
+
+
+_CP = {}
+
+
+def second_application(isa, path, archs, ign):
+    """library level: one parsed kernel analysed for one model and then, the same objects again,
+    for another (as a session comparing micro-architectures does).  The number in the
+    missing-data warning of the second report must be the number of lines marked X."""
+    from osaca.frontend import Frontend
+    from osaca.semantics import reduce_to_section
+    parser = drive.get_parser(isa)
+    with open(path) as f:
+        kernel = reduce_to_section(parser.parse_file(f.read()), isa)
+    bad = []
+    for arch in archs:
+        mm = drive.MachineModel(arch=arch)
+        sem = drive.ArchSemantics(mm)
+        sem.add_semantics(kernel)
+        g = drive.graph_only(kernel, parser, mm, sem)
+        text = Frontend(path, arch=arch).full_analysis(kernel, g, ignore_unknown=ign)
+        r = RP.parse(text.lstrip("\n"))
+        marked = [row["line_number"] for row in r.rows if "X" in row["flags"]]
+        flagged = [k.line_number for k in kernel if "tp_unknown" in k.flags]
+        if marked != flagged:
+            bad.append(("x-mark", "[%s after %s] rows marked X %r, instructions flagged %r"
+                        % (arch, archs[:archs.index(arch)], marked, flagged)))
+        if not ign and marked and r.missing != len(marked):
+            bad.append(("missing-warning", "[%s after %s] warning states %r missing instructions, "
+                        "%d lines are marked X" % (arch, archs[:archs.index(arch)], r.missing,
+                                                   len(marked))))
+    return bad
+
+
+def _second(item):
+    isa, path, pair, ign = item
+    try:
+        return item, second_application(isa, path, pair, ign)
+    except Exception:
+        return item, [("exception", traceback.format_exc()[-1200:])]
 
 
 def run(ctx):
@@ -273,6 +320,26 @@ def run(ctx):
                 % (os.path.basename(path), arch, fixed, ign, what),
                 {"path": path if path.startswith(core.REPO) else os.path.basename(path),
                  "isa": isa, "arch": arch, "fixed": fixed, "ignore_unknown": ign, "what": what}))
+    # the same parsed kernel analysed for two models in a row (library level)
+    sitems = []
+    for path, isa in corpus(ctx):
+        if "unknown" in os.path.basename(path) or "tp_missing" in os.path.basename(path):
+            a = archs[isa][:2]
+            for pair in (a, a[::-1], [a[0], a[0]]):
+                for ign in (False, True):
+                    sitems.append((isa, path, list(pair), ign))
+    sout = core.pmap(_second, sitems, chunk=1)
+    for (isa, path, pair, ign), bad in sout:
+        res.states += 1
+        res.traces += 1
+        res.transitions += 2
+        for kind, what in bad:
+            res.violations.append(core.Violation(
+                {"kind": kind, "isa": isa, "part": "second-application"},
+                "[%s ignore_unknown=%s] %s" % (os.path.basename(path), ign, what),
+                {"part": "second-application", "path": os.path.basename(path), "isa": isa,
+                 "archs": pair, "ignore_unknown": ign, "what": what}))
+    res.extra["second_application_cases"] = len(sitems)
     for (path, isa, arch, fixed, ign), (n, bad, sig) in out[:2] + out[len(out) // 2:len(out) // 2 + 2]:
         res.add_sample({"kernel": os.path.basename(path), "arch": arch, "fixed": fixed,
                         "ignore_unknown": ign, "(lines, missing, cp, lcd, archwarn, lenwarn, "
@@ -293,6 +360,12 @@ def replay(ctx, payload):
     r = payload["replay"]
     _DIR["d"] = ctx.sub("c13files")
     paths = {os.path.basename(p): p for p, _ in _gen_kernels(_DIR["d"])}
+    if r.get("part") == "second-application":
+        drive.stage_and_parse(ctx, r["archs"] + ["isa/x86", "isa/aarch64"])
+        bad = second_application(r["isa"], paths[r["path"]], r["archs"], r["ignore_unknown"])
+        for b in bad:
+            print(b)
+        return 1 if bad else 0
     path = r["path"] if r["path"].startswith("/") else paths[r["path"]]
     names = [r["arch"] or DEFAULT[r["isa"]], "isa/x86", "isa/aarch64"]
     drive.stage_and_parse(ctx, names)
